@@ -241,7 +241,53 @@ func runHotKeyChain(c *fw.Ctx, length int) {
 	c.Max("versions_of_one_key", int64(len(w.perKey["k0"])))
 }
 
+// quietChain: a writes k0, its child f writes k0 again, and a chain of `length` blocks on top of a (a sibling fork of f)
+// never touches k0. One lookup of k0 at the chain's tip walks the whole chain back to a; lookups at f, at a and along the
+// chain must then still be what the tree determines. The key has only a handful of versions: nothing may be evicted.
+func runQuietChain(c *fw.Ctx, length int) {
+	w := newWorld(c.Rng, 3, false)
+	commit := func(h, prev string, set ...string) {
+		b := w.newBlock(c, h, prev)
+		t := w.newTxn(c, b)
+		for _, k := range set {
+			w.txnSet(c, t, k)
+		}
+		w.txnCommit(c, t)
+		t.done = true
+		w.blockCommit(c, b)
+	}
+	commit("a", "", "k0", "k1")
+	commit("f", "a", "k0")
+	prev := "a"
+	for i := 1; i <= length; i++ {
+		h := fmt.Sprintf("q%d", i)
+		if i%10 == 0 {
+			commit(h, prev, "k2")
+		} else {
+			commit(h, prev)
+		}
+		prev = h
+	}
+	for _, at := range []string{prev, "f", "a", fmt.Sprintf("q%d", 1+length/2), "f", prev} {
+		if c.Violated() {
+			return
+		}
+		w.getState(c, "k0", at, false)
+	}
+	if !c.Violated() {
+		w.getState(c, "k1", "f", false)
+		w.sweep(c)
+	}
+	c.Count("quiet_chains", 1)
+}
+
 func runC06(c *fw.Ctx) {
+	if c.Idx >= 4 && c.Idx < 12 { // long quiet chains next to a fork that re-writes the key
+		n := []int{150, 198, 199, 200, 201, 230, 399, 400}[c.Idx-4]
+		c.Describe(map[string]any{"scenario": "quiet chain", "length": n})
+		runQuietChain(c, n)
+		return
+	}
 	if c.Idx < 4 { // dedicated long-chain / hot-key scenarios
 		n := 260
 		if !c.Quick() {
@@ -271,7 +317,7 @@ func init() {
 		Level: "exploration",
 		Rule: "each case grows a random block tree through the real cache objects: new blocks (extending a tip, forking from an old block, or on a parent the cache never saw = gap), transactions per block, set/remove in transactions and block caches, transaction commits, " +
 			"abandoned transactions and blocks, block caches that get their hash only right before the commit (SetBlockHash), block commits (parent first; a quarter of the trees also out of order), a second commit of an already committed block hash with different writes (must be ignored), and lookups through StateCache.Get, QueryBlockCache, BlockCache.Get and TransactionCache.Get at tips, old blocks, siblings and unknown hashes, also through the retained block/transaction cache objects of blocks that have been committed (own committed writes first, own never-committed transaction writes before those; writes and removals made into such an object after the commit stay private to it and come first there, also after the object is committed a second time (which must change nothing); a block cache whose commit was refused as a duplicate keeps its own writes), " +
-			"each compared with the harness' own block-tree model (unique token per write: a wrong hit names the block it leaked from); a final sweep reads every (key, block). Cases 0-3 are hot-key chains (one key written in most of 260..2600 blocks with an old block kept recent). " +
+			"each compared with the harness' own block-tree model (unique token per write: a wrong hit names the block it leaked from); a final sweep reads every (key, block). Cases 4-11 are quiet chains (a writes the key, its child f writes it again, 150..400 blocks on top of a never touch it; one lookup at the tip, then at f, a and along the chain). Cases 0-3 are hot-key chains (one key written in most of 260..2600 blocks with an old block kept recent). " +
 			"non-trivial = tree with at least one fork and three committed blocks; distinct by trace hash",
 		Cases: func(tier string) int {
 			if tier == "thorough" {
@@ -280,7 +326,7 @@ func init() {
 			return 96000
 		},
 		Run: runC06,
-		Floors: map[string]int64{"lookups_through_caches_of_committed_blocks": 200000, "late_writes_into_committed_block_caches": 30000, "late_removals_into_committed_block_caches": 3000, "repeated_commits_of_a_committed_block_cache": 8000, "trees": 80000, "lookups": 5000000, "hits": 100000, "misses": 100000, "forks": 10000, "gaps": 1000, "removals": 10000, "trees_with_out_of_order_commits": 1000,
+		Floors: map[string]int64{"quiet_chains": 8, "lookups_through_caches_of_committed_blocks": 200000, "late_writes_into_committed_block_caches": 30000, "late_removals_into_committed_block_caches": 3000, "repeated_commits_of_a_committed_block_cache": 8000, "trees": 80000, "lookups": 5000000, "hits": 100000, "misses": 100000, "forks": 10000, "gaps": 1000, "removals": 10000, "trees_with_out_of_order_commits": 1000,
 			"hot_key_chains": 4, "max:versions_of_one_key": 201, "duplicate_commits": 5000, "late_block_hashes": 20000},
 		Assumptions: []string{
 			"uncommitted blocks on a chain are skipped by the model (their writes are private), so the legal set is {miss, nearest committed write}",
